@@ -376,7 +376,8 @@ class C17(Prop):
         held = 3        # the three imports every case makes (the callback one may have been aborted: indices are taken modulo)
         pre = self.gen_edits(rng, nspec, 1) if rng.random() < 0.6 else []      # edits of the first object (fast parser, binary 0)
         for _ in range(rng.choice([1, 2, 2, 3])):
-            st = {"parser": rng.choice(["fast", "fast", "fast", "xml"]), "ibd": rng.choice([0, 1, 1]), "explicit": rng.random() < 0.5}
+            st = {"parser": rng.choice(["fast", "fast", "fast", "xml"]), "ibd": rng.choice([0, 1, 1]), "explicit": rng.random() < 0.5,
+                  "strpath": rng.random() < 0.3}
             if st["parser"] == "fast":
                 r = rng.random()
                 if r < 0.25:
@@ -899,22 +900,24 @@ class C17(Prop):
             if ab is not None and not 0 <= ab < nspec:
                 ab = None
             calls = None
+            # the paths as pathlib.Path or as str (both are documented argument types)
+            P = str if st.get("strpath") else (lambda x: x)
             try:
                 with warnings.catch_warnings():
                     warnings.simplefilter("error")
                     if st["parser"] == "xml":
                         ops.append({"op": "import", "parser": "xml", "bin": b})
-                        r = imzml.ImzML.from_file(path, external_binary=None if (b == 0 and not st.get("explicit")) else ibd_paths[b])
+                        r = imzml.ImzML.from_file(P(path), external_binary=None if (b == 0 and not st.get("explicit")) else P(ibd_paths[b]))
                     elif st.get("cb"):
                         calls = []
                         ops.append({"op": "import", "parser": "fast", "cb": self.cb_req(st, ab), "bin": b})
-                        r = imzml.fast_parse_imzml(path, ibd_paths[b], callback=self.make_callback(st, ab, calls))
+                        r = imzml.fast_parse_imzml(P(path), P(ibd_paths[b]), callback=self.make_callback(st, ab, calls))
                     elif st.get("api") == "function":
                         ops.append({"op": "import", "parser": "fast", "cb": None, "bin": b})
-                        r = imzml.fast_parse_imzml(path, ibd_paths[b])
+                        r = imzml.fast_parse_imzml(P(path), P(ibd_paths[b]))
                     else:
                         ops.append({"op": "import", "parser": "fast", "cb": None, "bin": b})
-                        r = imzml.ImzML.from_file(path, external_binary=None if (b == 0 and not st.get("explicit")) else ibd_paths[b],
+                        r = imzml.ImzML.from_file(P(path), external_binary=None if (b == 0 and not st.get("explicit")) else P(ibd_paths[b]),
                                                   use_fast_parse=True)
             except Exception as e:
                 r = e
@@ -1167,6 +1170,8 @@ class C17(Prop):
                 if ("fast", st["ibd"] % 2) in seen:
                     feats.add("history:fast-again-same-binary")
                 seen.add(("fast", st["ibd"] % 2))
+            if st.get("strpath"):
+                feats.add("history:paths-as-str")
             if st.get("cb") and st.get("abort") is not None:
                 feats.add("history:import-aborted-then-more" if st is not hist["steps"][-1] else "history:import-aborted-last")
         kinds = {e["edit"]["k"] for e in hist.get("pre_edits", [])} | {e["edit"]["k"] for st in hist["steps"] for e in st.get("edits", [])}
